@@ -15,7 +15,8 @@ RULE = ('Generated histories by two clients (same user, shared-key user or indep
         'on copies of the backend under each cache universe - disabled (reference), the client\'s current (warm or stale) '
         'cache, an empty cache, the other client\'s cache, and the current cache with one entry put into an '
         'interrupted-write state (missing / empty / generated proper prefix), and a cache left behind by a child process that was '
-        'really killed (os._exit) at its k-th file-system step inside the cache directory - and stdout, return value, restored tree, '
+        'really killed (os._exit) at its k-th file-system step inside the cache directory, and one long-lived Repository object '
+        'that listed the snapshots before another client\'s interrupted write damaged an entry - and stdout, return value, restored tree, '
         'exception type and resulting object set must equal the cache-disabled run. Non-trivial: some universe whose cache '
         'content differs from what the backend lists (stale, foreign or truncated entry for a listed snapshot).')
 ASSUMPTIONS = ['an interrupted cache write leaves the entry missing, empty or a proper prefix',
@@ -69,13 +70,24 @@ def run_case(case):
         env.rmtree(work)
 
 
-def _execute(case, store, cred, op, cache, work, tag, own_names):
-    """Run one command against `store` with the given cache directory; return an observation tuple."""
+def _execute(case, store, cred, op, cache, work, tag, own_names, session_damage=None):
+    """Run one command against `store` with the given cache directory; return an observation tuple.
+    session_damage=(entry path, bytes): the same Repository object first lists the snapshots (a long-lived client that has
+    already used this cache), then another client's interrupted write damages the entry, then the command runs."""
     backend = world.backend_for(case['backend'], store)
     tgt = os.path.join(work, 'tgt-' + tag)
     k = op['op']
 
     async def go(repo):
+        if session_damage is not None:
+            import contextlib
+            import io
+            with contextlib.redirect_stdout(io.StringIO()):
+                await repo.list_snapshots()
+            path, data = session_damage
+            os.makedirs(os.path.dirname(path), exist_ok=True)
+            with open(path, 'wb') as fh:
+                fh.write(data)
         if k == 'ls':
             return await repo.list_snapshots()
         if k == 'lf':
@@ -217,6 +229,14 @@ def _run(case, work):
                 classes.append('interrupted-entry:' + kind)
                 nontrivial = True
         universes['damaged'] = dmg
+        session = None
+        if listed and op['op'] in ('ls', 'lf', 'restore'):
+            sd = copy_cache(caches[c], 'ses')
+            victim = listed[op['damage']['pick'] % len(listed)]
+            body = store.objects[victim]
+            cut = 0 if op['damage']['kind'] != 'prefix' else op['damage']['len'] % max(1, len(body))
+            session = (sd, (os.path.join(sd, victim), body[:cut]))
+            classes.append('long-lived-client-then-damaged-entry')
         if listed and op.get('kill') and not killed_done[0]:
             # a writer killed for real at its k-th file-system step inside the cache directory (whatever write protocol is used)
             killed_done[0] = True
@@ -240,6 +260,10 @@ def _run(case, work):
         obs = {}
         for label, cache in universes.items():
             obs[label] = _execute(case, store.copy(), cred, op, cache, work, f'{serial}-{label}', names)
+        if session is not None:
+            obs['long-lived-client'] = _execute(case, store.copy(), cred, op, session[0], work, f'{serial}-session', names,
+                                                session_damage=session[1])
+            universes['long-lived-client'] = session[0]
         ref = obs['disabled']
         for label, o in obs.items():
             if o != ref:
